@@ -21,6 +21,7 @@ EXPLANATION = (
     "under a scheme's `check` can be constructed under its `batch_check` (sibling agreement on refusals; most batch "
     "verifiers re-implement the single check). Equality of the batch decision with the "
     "conjunction of single checks is a runtime statement and is not decided.")
+EXPLANATION += (" Shared rules: R4s (no positional pairing after an element-dropping adaptor) on the batch verifiers, R3 absence form, R1L, R1d.")
 RULE = ("instances = batch anchors x {proof-vs-claims zip sites} + combining verifiers x {rng reaches outcome, "
         "a live draw sits in a loop}; floors: every batch verifier over a proof list has >= 1 such zip")
 
@@ -77,31 +78,41 @@ def run(rep, ctx, tier):
         a = anchors.get(key)
         if a is None:
             continue
-        g = ctx.graph(a)
-        idx = a.roles.get("rng")
-        ok, p = R1.reach_from(ctx, g, [(a.body.id, idx)])
-        rep.add("R1", "%s:rng" % key, ok, "rng parameter %s the outcome" % ("can influence" if ok else "cannot influence"),
-                a.body.span)
-        draws = RNG.draw_sites(f, g.scope, a.ctx_adt)
-        live_in_loop = []
-        live = []
-        for bid, i, t in draws:
-            okd, _ = R1.reach_from(ctx, g, [("CALLRES", bid, i)])
-            if not okd:
-                continue
-            live.append((bid, i, t))
-            # in a loop of its own body, or in a helper every invocation of which happens inside a loop of a caller
-            from ..rules import refusal as R5
-            lead = R5.leads_to(g, (bid, i))
-            if i in RNG.cyclic_blocks(f.bodies[bid]) or any(x in RNG.cyclic_blocks(f.bodies[cb]) for cb, at in lead.items() for x in at):
-                live_in_loop.append((bid, i, t))
-        rep.count("rng_draw_sites", len(draws))
-        if live_in_loop:
-            rep.add("R15", "%s:fresh-combiner" % key, True, "random combiner drawn inside the per-query loop at %s" %
-                    live_in_loop[0][2]["span"], live_in_loop[0][2]["span"])
-        else:
-            where = live[0][2]["span"] if live else a.body.span
-            rep.add("R15", "%s:fresh-combiner" % key, False,
-                    ("no draw from the rng that reaches the outcome is inside a loop (%d draw site(s), %d live): the "
-                     "combiner is the same for every query, so errors in two queries can cancel") % (len(draws), len(live)),
-                    where)
+        combiner_rules(rep, ctx, a, key)
+    # the streaming batch verifier interpolates over its claims by position: no pairing after an element-dropping adaptor
+    for a in anchors.values():
+        if a.method in ("batch_check", "verify_multi_points"):
+            R4.run_shifted_pairing(rep, ctx, a, "R4s")
+
+
+def combiner_rules(rep, ctx, a, key):
+    """R1 / R15 on one combining batch verifier (shared with C03)."""
+    f = ctx.facts
+    g = ctx.graph(a)
+    idx = a.roles.get("rng")
+    ok, p = R1.reach_from(ctx, g, [(a.body.id, idx)])
+    rep.add("R1", "%s:rng" % key, ok, "rng parameter %s the outcome" % ("can influence" if ok else "cannot influence"),
+            a.body.span)
+    draws = RNG.draw_sites(f, g.scope, a.ctx_adt)
+    live_in_loop = []
+    live = []
+    for bid, i, t in draws:
+        okd, _ = R1.reach_from(ctx, g, [("CALLRES", bid, i)])
+        if not okd:
+            continue
+        live.append((bid, i, t))
+        # in a loop of its own body, or in a helper every invocation of which happens inside a loop of a caller
+        from ..rules import refusal as R5
+        lead = R5.leads_to(g, (bid, i))
+        if i in RNG.cyclic_blocks(f.bodies[bid]) or any(x in RNG.cyclic_blocks(f.bodies[cb]) for cb, at in lead.items() for x in at):
+            live_in_loop.append((bid, i, t))
+    rep.count("rng_draw_sites", len(draws))
+    if live_in_loop:
+        rep.add("R15", "%s:fresh-combiner" % key, True, "random combiner drawn inside the per-query loop at %s" %
+                live_in_loop[0][2]["span"], live_in_loop[0][2]["span"])
+    else:
+        where = live[0][2]["span"] if live else a.body.span
+        rep.add("R15", "%s:fresh-combiner" % key, False,
+                ("no draw from the rng that reaches the outcome is inside a loop (%d draw site(s), %d live): the "
+                 "combiner is the same for every query, so errors in two queries can cancel") % (len(draws), len(live)),
+                where)
